@@ -3,6 +3,7 @@ from ..engine import analyze_fn, norm
 from ..streamrules import (rule_error_discipline, rule_io_protocol, rule_cache_protocol, stream_fns, wh)
 from ..terms import T, pp
 
+REQUIRES = ("std",)
 LEVEL = "proof"
 RULE_TEXT = ("error discipline: the Result of every Read/Seek call and of every call to an I/O-performing in-crate function is tested on all "
              "paths and every outcome reached with it being Err returns that error; ordering: the cache insert is dominated by the success "
